@@ -1,8 +1,13 @@
 """C10 — close always terminates, completes everything, invalidates handles."""
+import json
 from .. import core, life_common
+from . import c10_pfd
 
 PROP = "C10"
 
 
 def run(tier, seed, replay=None):
-    return life_common.check(PROP, tier, seed, replay)
+    if replay and json.load(open(replay)).get("sub") in (c10_pfd.SUB, c10_pfd.SUB_CALLERS):
+        return c10_pfd.run(tier, seed, replay)          # a replay of the poller part (harness/u_pfd.c)
+    # the posix poller under the transports (src/platform/posix/posix_pollq_epoll.c): Props/C10Pfd.lean + harness/u_pfd.c
+    return life_common.check(PROP, tier, seed, replay, parts=[("pfd", c10_pfd.run_part)], extra_modules=c10_pfd.MODULES)
